@@ -44,4 +44,8 @@ Spec == Init /\ [][Next]_vars
 SafetyNet == pc = "done" => \/ override
                             \/ Accepted(ret, retDesc, tgt) >= featTotal
                             \/ (ret = feat /\ retDesc = featDesc)
+\* ---- liveness (checked by BrewDecide_live.cfg): under weak fairness of the next-state action every behaviour comes to rest
+\* in a state without successor -- the modelled procedure terminates for every input, schedule and fault inside the bounds
+FairSpec == Spec /\ WF_vars(Next)
+Halts == <>[](~ENABLED Next)
 =============================================================================
